@@ -245,6 +245,7 @@ class Index:
                 c.bases = [self.resolve_class_expr(m, b) for b in c.node.bases]
         self._mro = {}
         self._inline_delegating_methods()
+        self._inline_generators()
 
     def _inline_delegating_methods(self):
         """A method whose whole body is `return _helper(self, a, b)` / `_helper(self, a, b)` -- a private module-level function of
@@ -286,6 +287,91 @@ class Index:
                     fn.node.body = doc + new_body
                     ast.fix_missing_locations(fn.node)
                     set_parents(fn.node)
+
+    def _inline_generators(self):
+        """`for x in _gen(a, b): BODY` where `_gen` is a private module-level generator function of the same module IS the body
+        of `_gen` with every `yield v` statement replaced by `x = v; BODY` (parameters bound to the arguments first, the
+        generator's locals renamed apart).  Sound when the generator has no `return`, yields only as statements, and BODY has no
+        break / continue / return that would have to unwind the generator; anything else is left as a call."""
+        for m in self.mods.values():
+            funcs = list(m.funcs.values()) + [fn for c in m.classes.values() for fn in c.methods.values()]
+            for fn in funcs:
+                changed = False
+                for parent in ast.walk(fn.node):
+                    for field in ('body', 'orelse', 'finalbody'):
+                        stmts = getattr(parent, field, None)
+                        if not isinstance(stmts, list):
+                            continue
+                        out = []
+                        for st in stmts:
+                            rep = self._gen_inline_one(m, fn, st) if isinstance(st, ast.For) else None
+                            if rep is None:
+                                out.append(st)
+                            else:
+                                out.extend(rep)
+                                changed = True
+                        if changed:
+                            setattr(parent, field, out)
+                if changed:
+                    ast.fix_missing_locations(fn.node)
+                    set_parents(fn.node)
+
+    def _gen_inline_one(self, m, fn, st):
+        call = st.iter
+        if st.orelse or not (isinstance(call, ast.Call) and isinstance(call.func, ast.Name) and call.func.id in m.funcs and not call.keywords):
+            return None
+        g = m.funcs[call.func.id]
+        if g is fn or g.is_async or g.node.decorator_list or g.node.args.vararg or g.node.args.kwarg or g.node.args.kwonlyargs or g.node.args.defaults \
+                or len(call.args) != len(g.params) or any(isinstance(a, ast.Starred) for a in call.args):
+            return None
+        gbody = [x for x in g.node.body if not (isinstance(x, ast.Expr) and isinstance(x.value, ast.Constant))]
+        ys = [n for x in gbody for n in ast.walk(x) if isinstance(n, (ast.Yield, ast.YieldFrom))]
+        if not ys or any(isinstance(n, ast.YieldFrom) or n.value is None for n in ys):
+            return None
+        ystm = [n for x in gbody for n in ast.walk(x) if isinstance(n, ast.Expr) and isinstance(n.value, ast.Yield)]
+        if len(ystm) != len(ys):
+            return None                 # a yield used as an expression
+        if any(isinstance(n, (ast.Return, ast.FunctionDef, ast.Lambda, ast.Global, ast.Nonlocal, ast.Try, ast.With)) for x in gbody for n in ast.walk(x)):
+            return None
+        if any(isinstance(n, (ast.Break, ast.Continue, ast.Return, ast.Yield)) for x in st.body for n in ast.walk(x)):
+            return None
+        glocals = {n.id for x in gbody for n in ast.walk(x) if isinstance(n, ast.Name) and isinstance(n.ctx, ast.Store)} | set(g.params)
+        used = {n.id for n in ast.walk(fn.node) if isinstance(n, ast.Name)}
+        ren = {v: (v if v not in used else '%s__%s' % (v, g.name.strip('_'))) for v in glocals}
+        if any(r in used for v, r in ren.items() if r != v):
+            return None
+        # a parameter that the generator never rebinds, given a plain name the loop body never rebinds, is that name
+        gstores = {n.id for x in gbody for n in ast.walk(x) if isinstance(n, ast.Name) and isinstance(n.ctx, ast.Store)}
+        fstores = {n.id for x in st.body for n in ast.walk(x) if isinstance(n, ast.Name) and isinstance(n.ctx, ast.Store)}
+        for p_, a in zip(g.params, call.args):
+            if isinstance(a, ast.Name) and p_ not in gstores and a.id not in fstores and a.id not in gstores:
+                ren[p_] = a.id
+        body = clone(gbody)
+        target, fbody = st.target, st.body
+
+        class R(ast.NodeTransformer):
+            def visit_Name(self, n):
+                if n.id in ren:
+                    return ast.copy_location(ast.Name(id=ren[n.id], ctx=n.ctx), n)
+                return n
+        body = [R().visit(x) for x in body]
+
+        def splice(stmts):
+            out = []
+            for x in stmts:
+                if isinstance(x, ast.Expr) and isinstance(x.value, ast.Yield):
+                    out.append(ast.copy_location(ast.Assign(targets=[clone([target])[0]], value=x.value.value), st))
+                    out.extend(clone(fbody))
+                    continue
+                for field in ('body', 'orelse', 'finalbody'):
+                    sub = getattr(x, field, None)
+                    if isinstance(sub, list) and sub and isinstance(sub[0], ast.stmt):
+                        setattr(x, field, splice(sub))
+                out.append(x)
+            return out
+        binds = [ast.copy_location(ast.Assign(targets=[ast.Name(id=ren[p_], ctx=ast.Store())], value=a), st) for p_, a in zip(g.params, call.args)
+                 if not (isinstance(a, ast.Name) and a.id == ren[p_])]
+        return binds + splice(body)
 
     # ------------------------------------------------------------------ scan
     def _scan(self, m):
